@@ -1,13 +1,13 @@
 package checks
 
 import (
-	"github.com/deepteams/webp/internal/dsp"
 	"encoding/hex"
-	"github.com/deepteams/webp/internal/lossless"
-	"github.com/deepteams/webp/internal/zzverif/arb"
 	"encoding/json"
 	"fmt"
 	webp "github.com/deepteams/webp"
+	"github.com/deepteams/webp/internal/dsp"
+	"github.com/deepteams/webp/internal/lossless"
+	"github.com/deepteams/webp/internal/zzverif/arb"
 	"os"
 	"time"
 
